@@ -3047,7 +3047,11 @@ coap_handle_request_put_block(coap_context_t *context,
       coap_add_data(response, sizeof("Memory issue")-1,
                     (const uint8_t *)"Memory issue");
       response->code = COAP_RESPONSE_CODE(500);
-      goto skip_app_handler;
+      /*
+       * The block is already marked as received but could not be stored:
+       * drop the transfer state, a repeated block must not find it "in".
+       */
+      goto free_lg_srcv;
     }
   }
 
